@@ -87,6 +87,16 @@ def gen_case(rng, tier, method=None):
 def generate(rng, tier):
     n = 140 if tier == "quick" else 2000
     cases = [gen_case(rng, tier, m) for m in METHODS for _ in range(4)]      # every method present whatever the seed
+    # always present: every gradient statistic with a non-linear channel reducer (min / max), several channels and real
+    # noise — the statistic must be taken over the FULL gradients before the channels are reduced
+    for m in [mm for mm in METHODS if mm in STAT]:
+        for red in ("min", "max"):
+            for _ in range(60):
+                c = gen_case(rng, tier, m)
+                if c["kind"] == "img" and c["shape"][2] >= 2 and c["noise"] > 0:
+                    c["reducer"] = red
+                    cases.append(c)
+                    break
     cases += [gen_case(rng, tier) for _ in range(n - len(cases))]
     for c in cases:
         if c["method"] in STAT and c["noise"] == 0 and not c["eager"] and rng.random() < 0.5:
